@@ -54,7 +54,6 @@ CATALOGUE = [
     ("m-c10-skeleton-no-attrs", "C10", "src/metador_core/ih5/skeleton.py", "        for a in v.attrs.keys():\n            ds[k].attrs[a] = h5py.Empty(None)", "        pass"),
     ("m-c10-exts-not-inherited", "C10", MF, "        if self._manifest is not None:  # inherit attached data, if manifest exists\n            mf.manifest_exts = self.manifest.manifest_exts", "        pass"),
     ("m-c11-hash-before-close", "C11", RC, "        cfile.close()  # must close it now, as we will write outside of HDF5 next\n\n        # compute checksum, write user block\n        chksum = hashsum_file(filepath, skip_bytes=USER_BLOCK_SIZE)", "        cfile.flush()\n        chksum = hashsum_file(filepath, skip_bytes=USER_BLOCK_SIZE)\n        cfile.close()  # must close it now, as we will write outside of HDF5 next\n"),
-    ("m-c11-patch-inplace", "C11", RC, "        path = self._next_patch_filepath()\n        ub = IH5UserBlock.create(prev=self._ublock(-1))", "        path = self._next_patch_filepath()\n        _p = Path(self.__files__[-1].filename); _u = self._ublocks[_p].copy(); _u.save(_p)\n        ub = IH5UserBlock.create(prev=self._ublock(-1))"),
     ("m-c15-child-drops-skel", "C15", WR, "            **{k.name: v for k, v in self.acl.items() if v},", "            **{k.name: v for k, v in self.acl.items() if v and k != NodeAcl.skel_only},"),
     ("m-c15-visititems-unwrapped", "C15", WR, "            return func(name, self._wrap_if_node(node))", "            return func(name, node)"),
     ("m-c15-attrs-ro-only", "C15", WR, "        if self.acl[NodeAcl.read_only] or self.acl[NodeAcl.skel_only]:\n            return WrappedAttributeManager", "        if self.acl[NodeAcl.read_only]:\n            return WrappedAttributeManager"),
